@@ -100,7 +100,7 @@ func (e *engine) Run(t *tape.Tape, trace bool) core.Result {
 func (r *run) fail(class, detail, format string, a ...interface{}) {
 	if r.res.Viol == nil {
 		r.res.Viol = &core.Violation{Class: class, Detail: detail, Msg: fmt.Sprintf(format, a...)}
-		r.log.Event("VIOLATION " + class + ": " + r.res.Viol.Msg)
+		r.log.Violation(class, r.res.Viol.Msg)
 		if r.log.Keep && r.tree != nil {
 			core.Protect(func() {
 				r.log.Note("tree at violation: Size()=%d Depth()=%d", r.tree.Size(), r.tree.Depth())
